@@ -48,6 +48,7 @@
 #undef private
 #undef protected
 #include "system/SetupSystem.h"
+#include "syslog/SysLog.h"
 #include "message/Message.h"
 #include "sched/sched.h"
 
@@ -60,7 +61,7 @@ static const int MAX_UT = 6;
 struct Op { char kind; int c; uint32 m; };
 struct Case
 {
-   int n; bool bar; bool haveSeed; uint64_t seed; std::vector<Choice> sched;
+   int n; bool bar; bool fine; bool haveSeed; uint64_t seed; std::vector<Choice> sched;
    int nut;
    std::vector<Op> prog[MAX_UT];
    std::set<int> own[MAX_UT];
@@ -80,7 +81,7 @@ static bool parse_case(const std::string & line, Case & c)
    const size_t bar = line.find('|');
    if (bar == std::string::npos) return false;
    c.head = line.substr(0, bar); c.body = line.substr(bar+1);
-   c.n = 1; c.bar = false; c.haveSeed = false; c.seed = 0; c.sched.clear(); c.nut = 1;
+   c.n = 1; c.bar = false; c.fine = false; c.haveSeed = false; c.seed = 0; c.sched.clear(); c.nut = 1;
    for (int i=0; i<MAX_UT; i++) {c.prog[i].clear(); c.own[i].clear();}
    std::vector<std::string> hs = split(c.head, ',');
    for (size_t i=0; i<hs.size(); i++)
@@ -88,6 +89,7 @@ static bool parse_case(const std::string & line, Case & c)
       const std::string & h = hs[i];
       if (h.compare(0, 2, "n=") == 0) c.n = atoi(h.c_str()+2);
       else if (h.compare(0, 4, "bar=") == 0) c.bar = (h[4] == '1');
+      else if (h.compare(0, 5, "fine=") == 0) c.fine = (h[5] == '1');
       else if (h.compare(0, 5, "seed=") == 0) {if (h[5] != '-') {c.haveSeed = true; c.seed = strtoull(h.c_str()+5, NULL, 10);}}
       else if (h.compare(0, 4, "sch=") == 0)
       {
@@ -366,6 +368,10 @@ static void user_body(int ut)
    refresh_readable();
 }
 
+// fine=1: every mutex acquisition (Thread's queue locks, ...) and every signal is a decision point as well, so a pool thread can
+// run between the individual steps of another thread's critical section (eg between "signal the thread" and "publish its batch")
+static bool g_fine = false;
+
 static Options base_options()
 {
    Options o;
@@ -374,10 +380,11 @@ static Options base_options()
    o.policy_fn = [](int kind, const void * obj) -> int {
       switch(kind)
       {
-         case K_MUTEX_LOCK:   return ((g_run)&&(obj == (const void *) &g_run->pool->_poolLock)) ? (F_LOG|F_DECIDE) : 0;
+         case K_MUTEX_LOCK:   return ((g_run)&&(obj == (const void *) &g_run->pool->_poolLock)) ? (F_LOG|F_DECIDE) : (g_fine ? F_DECIDE : 0);
          case K_MUTEX_UNLOCK: return ((g_run)&&(obj == (const void *) &g_run->pool->_poolLock)) ? F_LOG : 0;
          case K_WC_WAIT: case K_WC_TIMEDWAIT: return F_LOG|F_DECIDE;
-         case K_WC_NOTIFY: case K_SEM_POST: case K_THREAD_SPAWN: case K_THREAD_EXIT: return F_LOG;
+         case K_WC_NOTIFY: case K_SEM_POST: return g_fine ? (F_LOG|F_DECIDE) : F_LOG;
+         case K_THREAD_SPAWN: case K_THREAD_EXIT: return F_LOG;
          case K_THREAD_SPAWNED: case K_THREAD_START: case K_THREAD_JOIN: return F_LOG|F_DECIDE;
          default: return 0;
       }
@@ -421,7 +428,9 @@ static void run_case(int k, const std::string & line)
 {
    Case c;
    if (!parse_case(line, c)) {printf("%d bad-case\n", k); return;}
+   g_fine = c.fine;
    Options o = base_options();
+   if (c.fine) o.max_decisions = 40000;
    o.schedule = c.sched;
    if (c.haveSeed) {o.policy = Options::RANDOM; o.seed = c.seed;} else o.policy = Options::NONPREEMPTIVE;
    Scheduler * s = new Scheduler(o);
@@ -458,9 +467,10 @@ static void explore_case(const std::string & line, int bound, size_t maxRuns)
 {
    Case c;
    if (!parse_case(line, c)) return;
+   g_fine = c.fine;
    ExploreOptions eo; eo.max_preemptions = bound; eo.max_runs = maxRuns; eo.base = base_options();
    Run * cur = NULL;
-   std::string head = "sched,n=" + std::to_string(c.n) + ",bar=" + (c.bar ? "1" : "0") + ",seed=-,sch=";
+   std::string head = "sched,n=" + std::to_string(c.n) + ",bar=" + (c.bar ? "1" : "0") + (c.fine ? ",fine=1" : "") + ",seed=-,sch=";
    (void) Explore(eo,
       [&](Scheduler & s) {cur = setup_run(c, s);},
       [&](const Result & res) {
@@ -476,6 +486,7 @@ static void explore_case(const std::string & line, int bound, size_t maxRuns)
 int main(int argc, char ** argv)
 {
    CompleteSetupSystem css;
+   SetConsoleLogToStderr(true);   // an "ASSERTION FAILED: ..." line of a MASSERT must end up in the crash report, not between the result lines
    const bool explore = (argc >= 4)&&(strcmp(argv[1], "--explore") == 0);
    char * line = NULL; size_t cap = 0; ssize_t len;
    int k = 0;
